@@ -293,6 +293,16 @@ impl Env {
         true
     }
 
+    pub fn deliver_block(&mut self, sim: &mut Sim, i: usize, m: ckb_types::packed::SyncMessage, body: &str) {
+        let p = self.peers[i].idx;
+        let b = match m.to_enum() {
+            ckb_types::packed::SyncMessageUnion::SendBlock(sb) => hid(&sim.chain, &sb.block().header().calc_header_hash()),
+            _ => -1,
+        };
+        let args = json!({"p": pname(p), "b": b, "body": body});
+        sim.step("Block", args, |c| c.deliver(Proto::Sync, p, m.as_bytes()));
+    }
+
     /// cmd: "all" | "partial" | "delete"; list of (script id 0-based, is_type, block_number)
     pub fn set_scripts(&mut self, sim: &mut Sim, cmd: &str, list: &[(usize, bool, u64)]) {
         let scripts: Vec<RpcScriptStatus> = list
@@ -320,5 +330,107 @@ impl Env {
                 rpc.set_scripts(scripts, command).expect("set_scripts");
             })
         });
+    }
+}
+
+// ---------------------------------------------------------------------------------------------
+// fetch_transaction / fetch_header / get_transaction RPCs
+// ---------------------------------------------------------------------------------------------
+use crate::service::{ChainRpc, FetchStatus, Status as TxStatusKind, TransactionRpc};
+
+impl Env {
+    /// fetch_transaction(tx): logs the returned status and, when fetched, the block the answer names.
+    pub fn rpc_fetch_tx(&mut self, sim: &mut Sim, tx: usize) {
+        let hash: ckb_types::H256 = sim.chain.txs[tx].view.hash().unpack();
+        let mut status = json!("panic");
+        let mut blk: i64 = 0;
+        let chain_ptr: *const crate::verif::world::SimChain = &sim.chain;
+        let res = {
+            let c = sim.client.as_mut().unwrap();
+            let rpc = c.rpc_tx();
+            crate::verif::client::guard_val(|| rpc.fetch_transaction(hash.clone()))
+        };
+        let r = match res {
+            Ok(Ok(fs)) => {
+                let chain = unsafe { &*chain_ptr };
+                match fs {
+                    FetchStatus::Added { .. } => status = json!("added"),
+                    FetchStatus::Fetching { .. } => status = json!("fetching"),
+                    FetchStatus::NotFound => status = json!("not_found"),
+                    FetchStatus::Fetched { data } => {
+                        status = json!(match data.tx_status.status {
+                            TxStatusKind::Committed => "committed",
+                            TxStatusKind::Pending => "pending",
+                            TxStatusKind::Unknown => "unknown",
+                        });
+                        blk = data.tx_status.block_hash.map(|h| hid(chain, &h.pack())).unwrap_or(0);
+                    }
+                }
+                Ok(())
+            }
+            Ok(Err(e)) => {
+                status = json!(format!("error:{}", e.message));
+                Ok(())
+            }
+            Err(msg) => Err(msg),
+        };
+        sim.step("FetchTx", json!({"t": tx + 1, "status": status, "blk": blk}), |_| r);
+    }
+
+    pub fn rpc_get_tx(&mut self, sim: &mut Sim, tx: usize) {
+        let hash: ckb_types::H256 = sim.chain.txs[tx].view.hash().unpack();
+        let mut status = json!("panic");
+        let mut blk: i64 = 0;
+        let chain_ptr: *const crate::verif::world::SimChain = &sim.chain;
+        let res = {
+            let c = sim.client.as_mut().unwrap();
+            let rpc = c.rpc_tx();
+            crate::verif::client::guard_val(|| rpc.get_transaction(hash.clone()))
+        };
+        let r = match res {
+            Ok(Ok(data)) => {
+                let chain = unsafe { &*chain_ptr };
+                status = json!(match data.tx_status.status {
+                    TxStatusKind::Committed => "committed",
+                    TxStatusKind::Pending => "pending",
+                    TxStatusKind::Unknown => "unknown",
+                });
+                blk = data.tx_status.block_hash.map(|h| hid(chain, &h.pack())).unwrap_or(0);
+                Ok(())
+            }
+            Ok(Err(e)) => {
+                status = json!(format!("error:{}", e.message));
+                Ok(())
+            }
+            Err(msg) => Err(msg),
+        };
+        sim.step("GetTx", json!({"t": tx + 1, "status": status, "blk": blk}), |_| r);
+    }
+
+    pub fn rpc_fetch_header(&mut self, sim: &mut Sim, block: usize) {
+        let hash: ckb_types::H256 = sim.chain.blocks[block].header.hash().unpack();
+        let mut status = json!("panic");
+        let res = {
+            let c = sim.client.as_mut().unwrap();
+            let rpc = c.rpc_chain();
+            crate::verif::client::guard_val(|| rpc.fetch_header(hash.clone()))
+        };
+        let r = match res {
+            Ok(Ok(fs)) => {
+                status = json!(match fs {
+                    FetchStatus::Added { .. } => "added",
+                    FetchStatus::Fetching { .. } => "fetching",
+                    FetchStatus::NotFound => "not_found",
+                    FetchStatus::Fetched { .. } => "fetched",
+                });
+                Ok(())
+            }
+            Ok(Err(e)) => {
+                status = json!(format!("error:{}", e.message));
+                Ok(())
+            }
+            Err(msg) => Err(msg),
+        };
+        sim.step("FetchHeader", json!({"b": block + 1, "status": status}), |_| r);
     }
 }
